@@ -198,6 +198,20 @@ def holds(body, blk, pattern, negate=False):
                         return True
             continue
         c = core(t)
+        # for unsigned values `x == 0` is also written `x < 1` / `x <= 0` (and `x != 0` as `x >= 1` / `x > 0`)
+        if isinstance(pattern, tuple) and len(pattern) == 4 and pattern[0] == 'bin' and pattern[1] in ('Eq', 'Ne') and c[0] == 'bin' and c[1] in ('Lt', 'Le', 'Ge', 'Gt'):
+            zero = match(('const', '0', 0), pattern[3])
+            if zero and match(c[2], pattern[2]) and c[3][0] == 'const' and len(c[3]) > 2:
+                k = c[3][2]
+                is_zero = (c[1] == 'Lt' and k == 1) or (c[1] == 'Le' and k == 0)
+                non_zero = (c[1] == 'Ge' and k == 1) or (c[1] == 'Gt' and k == 0)
+                if is_zero or non_zero:
+                    states_zero = is_zero if pol else non_zero
+                    states_nonzero = non_zero if pol else is_zero
+                    if (pattern[1] == 'Eq') == want and states_zero:
+                        return True
+                    if (pattern[1] == 'Ne') == want and states_nonzero:
+                        return True
         if pol is want and match(c, pattern):
             return True
         if isinstance(pattern, tuple) and pattern and pattern[0] == 'bin' and pattern[1] in NEGATED and c[0] == 'bin':
